@@ -261,7 +261,7 @@ def gen_scenario(rng, prof=None, force_selflock=None):
     if rng.random() < p.get('p_numpy', 0.12):
         load['numpy'] = True
     if rng.random() < p.get('p_reentrant', 0.08):
-        load['reentrant'] = True          # the load function uses the public API on its arguments and reads sensors (sim/build.py)
+        load['reentrant'] = rng.choice([True, 'inplace-time'])          # the load function uses the public API on its arguments and reads sensors (sim/build.py)
     spec['rules'] = []
     spec['stop'] = None
     spec['prior_design'] = rng.randrange(1 << 30) if rng.random() < 0.3 else None     # relations declared differently first (sim/build.py prior_design)
